@@ -408,8 +408,27 @@ pub fn run_one(cfg : &Config, seed : u64, k : u64, stats : &mut Stats) -> Vec<Fo
                 }
             }
         }
-        case.ops.push(Op::SetRules{ rules : repaired });
+        case.ops.push(Op::SetRules{ rules : repaired.clone() });
         case.ops.push(Op::Build{ goal : None, sched : SchedSpec::random(&mut rng) });
+        // one more failure kind after everything has been built: the command of a multi-target rule
+        // is edited so that it no longer generates one of its declared targets (whose old file is
+        // still lying there); the build must say so, and say so again when repeated
+        let multi : Vec<usize> = repaired.iter().enumerate().filter(|(_, r)| r.targets.len() >= 2 && r.lines.len() >= 2).map(|(i, _)| i).collect();
+        if multi.len() > 0 && rng.chance(2, 3)
+        {
+            let mut broken = repaired.clone();
+            let r = *rng.pick(&multi);
+            let li = rng.below(broken[r].lines.len() as u64) as usize;
+            broken[r].lines.remove(li);
+            if rng.chance(1, 2)
+            {
+                let leaves = gen.leaf_names();
+                if leaves.len() > 0 { let l = rng.pick(&leaves).clone(); case.ops.push(Op::Write{ path : l.clone(), content : format!("{}#e", l).into_bytes() }); }
+            }
+            case.ops.push(Op::SetRules{ rules : broken });
+            case.ops.push(Op::Build{ goal : None, sched : SchedSpec::random(&mut rng) });
+            case.ops.push(Op::Build{ goal : None, sched : SchedSpec::random(&mut rng) });
+        }
     }
 
     if k < 3 * cfg.workers { stats.sample(case.to_j().set("victim_op", J::Int(victim as i64)).set("invalid", J::s(invalid))); }
